@@ -14,13 +14,15 @@ from .c17 import world, LPD, HINT as HINT17, _replay_switch
 from .fm import FM as FMA, set_ownership
 
 HINT = dict(HINT17)
-HINT.update({'amount': 10 ** 6 + 1})
+HINT.update({'amount': 10 ** 6 + 1, 'liquidity_tolerance': 5 * 10 ** 17})
 
 
-def _ob_equiv(odd):
+def _ob_equiv(odd, with_liq_tol=False):
     def s(I):
         b, res, amt, amt_b = world(I, (True, True, True))
-        I.set_hint(HINT)
+        hint = dict(HINT, amount=10 ** 6 + (1 if odd else 0))
+        I.set_hint(hint)
+        liq = Some(I.sym('liquidity_tolerance', hi=E18)) if with_liq_tol else None
         par = I.ctx.fmod(amt, 2)
         I.assume(smt.Eq(par, 1 if odd else 0))
         half = I.ctx.fdiv(amt, 2)
@@ -28,8 +30,10 @@ def _ob_equiv(odd):
         start = ch.snapshot()
         pre_lp = b.get('user', LPD['p1'])
         # (i) the real chain: execute -> self Swap sub-message -> reply -> self ProvideLiquidity
-        st1, _ = ch.execute('user', PM, provide_msg('p1', swap_slip=Some(5 * 10 ** 17)), [coin_v('uA', amt)])
+        st1, _ = ch.execute('user', PM, provide_msg('p1', swap_slip=Some(5 * 10 ** 17), liq_slip=clone(liq) if liq else None), [coin_v('uA', amt)])
         after1 = ch.snapshot()
+        observe_pool(I, 'p1')
+        observe_bank(I, bank_of(I), [('user', 'uA'), ('user', 'uB'), ('user', LPD['p1']), (PM, 'uA'), (PM, 'uB')])
         buffer_left = 'single_side_liquidity_provision_buffer' in I.world.store(PM)
         ch.restore(start)
         b = bank_of(I)
@@ -41,13 +45,13 @@ def _ob_equiv(odd):
         if st2a == 'ok':
             got = simp(b.get('user', 'uB') - pre_b)
             if I.fork(got > 0):
-                st2b, _ = ch2.execute('user', PM, provide_msg('p1'), [coin_v('uA', half), coin_v('uB', got)])
+                st2b, _ = ch2.execute('user', PM, provide_msg('p1', liq_slip=clone(liq) if liq else None), [coin_v('uA', half), coin_v('uB', got)])
         I.observe('status', 'ok' if st1 == 'ok' else 'err')
         if st1 != 'ok':
             I.outcome('chain_rejected')
             I.check('rejected_chain_leaves_no_buffer', not buffer_left)
             return
-        I.cover('ok', HINT)
+        I.cover('ok', hint)
         I.check('no_temporary_bookkeeping_left', not buffer_left)
         I.check('manual_sequence_also_succeeds', st2a == 'ok' and st2b == 'ok')
         if not (st2a == 'ok' and st2b == 'ok'):
@@ -60,17 +64,31 @@ def _ob_equiv(odd):
         I.check('same_fees_paid', smt.And(smt.Eq(b1.get('fee_collector', 'uB'), b.get('fee_collector', 'uB')), smt.Eq(b1.supply.get('uB', 0), b.supply.get('uB', 0))))
         I.check('leftover_is_amount_mod_2', smt.Eq(b1.get('user', 'uA'), b.get('user', 'uA') - par))
         I.check('no_proceeds_left_with_contract_or_user', smt.Eq(b1.get('user', 'uB'), b.get('user', 'uB')))
-        observe_pool(I, 'p1')
     return s
 
 
-for _odd in (False, True):
-    obligation('C14', 'R1.single_asset_equals_swap_then_deposit_%s' % ('odd' if _odd else 'even'),
+def _replay_equiv(m):
+    from .c02 import _mints
+    fees = (10 ** 15, 2 * 10 ** 15, 0, [])
+    steps = [{'op': 'set_pool', 'pool': pool_json('p1', ['uA', 'uB'], [6, 6], [m['x1'], m['y1']], 'constant_product', fees)},
+             {'op': 'set_pool', 'pool': pool_json('p2', ['uB', 'uC'], [6, 6], [m['x2'], m['y2']], 'constant_product', fees)}]
+    tot = m['amount'] + m['amount_b']
+    steps += _mints([('pool_manager', [('uA', m['x1']), ('uB', m['y1'] + m['x2']), ('uC', m['y2']), (LPD['p1'], MINLIQ), (LPD['p2'], MINLIQ)]),
+                     ('user', [('uA', tot), ('uB', tot), ('uC', tot), (LPD['p1'], m['S1'] - MINLIQ), (LPD['p2'], m['S2'] - MINLIQ)])])
+    msg = {'provide_liquidity': {'pool_identifier': 'p1', 'swap_max_slippage': '0.5'}}
+    if 'liquidity_tolerance' in m:
+        msg['provide_liquidity']['liquidity_max_slippage'] = dec_j(m['liquidity_tolerance'])
+    steps.append({'op': 'execute', 'contract': 'pool_manager', 'sender': 'user', 'funds': [coin_j('uA', m['amount'])], 'msg': msg})
+    return {'setup': {}, 'steps': steps}, len(steps) - 1
+
+
+for _odd, _tol in ((False, False), (True, False), (False, True)):
+    obligation('C14', 'R1.single_asset_equals_swap_then_deposit_%s%s' % ('odd' if _odd else 'even', '_with_liquidity_tolerance' if _tol else ''),
                entries=['execute', 'provide_liquidity', 'query_simulation', 'swap::commands::swap', 'reply', 'validate_asset_balance'], kind='R',
                statement='single-asset deposit of amount a into a two-asset pool == Swap(a/2) then ProvideLiquidity([a/2, proceeds]) by the same sender: same reserves, '
                          'same LP minted to the sender, same fees; the only difference is the indivisible unit of an odd amount; the temporary buffer is removed',
                bounds='funded constant-product pool, reserves / supply / amount symbolic (%s amount)' % ('odd' if _odd else 'even'),
-               covers=['ok'], replay=_replay_switch('single_sided_p1'))(_ob_equiv(_odd))
+               covers=['ok'], replay=generic_replay(lambda m: _replay_equiv(m)))(_ob_equiv(_odd, _tol))
 
 
 def _ob_refusals(I):
